@@ -119,18 +119,36 @@ Definition lcase_prop_ok (c : lcase) : bool :=
        bool_eqb (h_match o) v && bool_eqb (h_inv o) (negb v) && bool_eqb (h_inv2 o) v && bool_eqb (h_perm o) v)
       (lc_obs c))).
 
-(* ---- end to end: the real binary started with --deny-domains, requests for target hosts ---- *)
+(* ---- end to end: the real binary started with --deny-domains / --mitm-domains, requests for target hosts ---- *)
+(* the reference identifies a fully qualified name with and without its trailing dot at the deny site
+   ("evil.test." is the host "evil.test"; /repo 36ee1cd), so a request is to be denied when the list matches either form *)
+Definition ref_forms (st : site) (h : str) : list str :=
+  match st with SiteDeny => [h; trim_dot h] | _ => [h] end.
+Definition site_of (n : N) : site := if n =? 0 then SiteDeny else if n =? 1 then SiteDirect else SiteMitm.
+
 Record ucase := {
+  uc_site : N;                        (* 0 deny-domains, 1 direct-domains, 2 mitm-domains *)
   uc_entries : list (bool * rx);      (* the list given on the command line: exclude?, rule *)
-  uc_obs : list (str * list bool * bool)   (* bare target host name, Go's regexp verdict of every rule alone, request was denied *)
+  uc_obs : list (str * list (list bool) * bool)
+  (* bare target host name; for every reference form of it Go's regexp verdict of every rule alone;
+     the site said yes (request denied / CONNECT intercepted) *)
 }.
+Definition hit_model (es : list (bool * rx)) (forms : list str) : option bool :=
+  fold_right (fun f acc => match match_entries the_shape es 0 f, acc with
+                           | Ans a, Some c => Some (a || c)
+                           | _, _ => None
+                           end) (Some false) forms.
 Definition ucase_model_ok (c : ucase) : bool :=
-  forallb (fun o => let '(host, _, denied) := o in
-                    outcome_is (match_entries the_shape (uc_entries c) 0 host) 0 denied) (uc_obs c).
+  forallb (fun o => let '(host, _, yes) := o in
+                    match hit_model (uc_entries c) (site_forms (site_of (uc_site c)) host) with
+                    | Some a => bool_eqb a yes
+                    | None => true
+                    end) (uc_obs c).
 Definition ucase_prop_ok (c : ucase) : bool :=
-  forallb (fun o => let '(_, alone_ans, denied) := o in
-                    (length alone_ans =? length (uc_entries c))%nat &&
-                    bool_eqb denied (ref_verdict (uc_entries c) alone_ans)) (uc_obs c).
+  forallb (fun o => let '(host, alone_forms, yes) := o in
+                    (length alone_forms =? length (ref_forms (site_of (uc_site c)) host))%nat &&
+                    forallb (fun al => (length al =? length (uc_entries c))%nat) alone_forms &&
+                    bool_eqb yes (existsb (ref_verdict (uc_entries c)) alone_forms)) (uc_obs c).
 Definition ucase_unmodelled (c : ucase) : bool :=
   match match_entries the_shape (uc_entries c) 0 [] with Unmodelled => true | _ => false end.
 
@@ -144,13 +162,12 @@ Record vcase := {
      0 = denied, 1 = the origin was contacted directly, 2 = the request went to the upstream proxy *)
 }.
 Definition route_code (denied direct : bool) : N := if denied then 0 else if direct then 1 else 2.
-Definition model_hit (es : list (bool * rx)) (host : str) : option bool :=
-  if is_nil es then Some false
-  else match match_entries the_shape es 0 host with Ans a => Some a | _ => None end.
+Definition model_hit (st : site) (es : list (bool * rx)) (host : str) : option bool :=
+  if is_nil es then Some false else hit_model es (site_forms st host).
 Definition vcase_model_ok (c : vcase) : bool :=
   vc_started c &&
   forallb (fun o => let '(host, _, _, code) := o in
-                    match model_hit (vc_deny c) host, model_hit (vc_direct c) host with
+                    match model_hit SiteDeny (vc_deny c) host, model_hit SiteDirect (vc_direct c) host with
                     | Some d, Some r => code =? route_code d r
                     | _, _ => true
                     end) (vc_obs c).
